@@ -66,6 +66,9 @@ def supply_kwargs(ax, rule, fv, supply, axes=("X",)):
     if supply == "gridmap":
         return dict(periodic=False, boundary={a: (rule if a == ax else decoy_rule) for a in axes},
                     fill_value={a: (fv if a == ax else 99.0) for a in axes}), {}
+    if supply == "grid+othermap":
+        # Grid-level setting for the operated axis; the per-call mappings name only *another* axis of the grid
+        return dict(periodic=False, boundary=rule, fill_value=fv), dict(boundary={"Y": decoy_rule}, fill_value={"Y": 99.0})
     if supply == "default":
         assert (rule, fv) in (("periodic", 0.0), ("fill", 0.0))
         return dict(periodic=(rule == "periodic")), {}
@@ -73,7 +76,7 @@ def supply_kwargs(ax, rule, fv, supply, axes=("X",)):
 
 
 def supplies_for(rule, fv):
-    s = ["call", "callmap", "grid", "gridmap"]
+    s = ["call", "callmap", "grid", "gridmap", "grid+othermap"]
     if (rule, fv) in (("periodic", 0.0), ("fill", 0.0)):
         s.append("default")
     return s
@@ -131,8 +134,11 @@ def part_a(rec, li, n, seed, only=None):
                             view.setflags(write=False)
                             da = xr.DataArray(view, dims=["b", S.dimname("X", fr)])
                         if g is None:
-                            g = build_grid({"X": layout}, {"X": n}, gkw)
-                            if supply in ("grid", "gridmap", "default"):
+                            if supply == "grid+othermap":
+                                g = build_grid({"X": layout, "Y": ("center", "left")}, {"X": n, "Y": 2}, gkw)
+                            else:
+                                g = build_grid({"X": layout}, {"X": n}, gkw)
+                            if supply in ("grid", "gridmap", "default", "grid+othermap"):
                                 # an earlier call with other per-call settings must not change what
                                 # the Grid-level settings mean for later calls
                                 try:
@@ -175,6 +181,18 @@ def part_a(rec, li, n, seed, only=None):
                                     except Exception as e:
                                         rec.violation("single-axis", f"raise:{np.dtype(idt).name}:" + exc_sig(e), dict(case, dtype=np.dtype(idt).name), "array", f"{type(e).__name__}: {e}"[:200])
                                         break
+                                if op != "interp":
+                                    # 64-bit integers beyond 2**53: differences, minima and maxima are exact, not merely to double precision
+                                    big_ = (np.arange(2 * m, dtype=np.int64).reshape(2, m) * 2 + 2 ** 55 + 1) * np.array([[1], [-1]], dtype=np.int64)
+                                    big_[:, ::2] += 5
+                                    try:
+                                        rb_ = getattr(g, op)(xr.DataArray(big_, dims=da.dims), "X", **kw)
+                                        rec.calls += 1
+                                        eb_ = S.ref_stencil(big_.astype(object), fr, to, n, op, rule, int(fv))
+                                        if [int(x) for x in np.asarray(rb_.values).ravel()] != [int(x) for x in eb_.ravel()]:
+                                            rec.violation("single-axis", "values:int64-beyond-2**53", dict(case, dtype="int64-large"), eb_.astype(float), rb_.values)
+                                    except Exception as e:
+                                        rec.violation("single-axis", "raise:int64-large:" + exc_sig(e), dict(case, dtype="int64-large"), "array", f"{type(e).__name__}: {e}"[:200])
 
 
 # ---------------------------------------------------------------- part (b)
